@@ -47,7 +47,7 @@ class Contract:
                  raises=None, may_raise=(), defines=None, loops=None, ghosts=(), locals=None,
                  ghost_init=None, trusted=False, inline=False, note="", props=(),
                  ghost_params=None, result_name="result", lemmas=(), pure=True,
-                 must_raise=None, logs=None, map_keys=None, raise_allowed=None):
+                 must_raise=None, logs=None, map_keys=None, raise_allowed=None, ghost_results=None, call_site=True):
         self.key = key
         self.inst = inst
         self.params = OrderedDict(params)
@@ -77,6 +77,8 @@ class Contract:
         self.logs = logs
         self.map_keys = dict(map_keys or {})
         self.always_raises = False
+        self.ghost_results = OrderedDict(ghost_results or {})
+        self.call_site = call_site    # False: verified only, never used at call sites
 
     @property
     def name(self):
@@ -115,7 +117,7 @@ class Registry:
         cands = self.contracts.get(key, [])
         best = None
         for c in cands:
-            ok = True
+            ok = c.call_site
             for p, b in c.conc_bindings().items():
                 if p in conc_args and conc_args[p] is not b.get():
                     ok = False
